@@ -27,7 +27,7 @@ Proof.
   apply cs_ninv_iff. split; [exact Hg|]. split.
   - intros H. rewrite Ha in H. discriminate H.
   - destruct (cs_is_all_without_allowall c) eqn:E; [|reflexivity].
-    apply cs_iawa_spec in E. destruct E as [_ E]. specialize (E UDP). rewrite Hu in E. discriminate E.
+    apply cs_iawa_gen in E. destruct E as [_ E]. destruct (E UDP) as (ps0 & E0 & _). rewrite Hu in E0. discriminate E0.
 Qed.
 
 Lemma tcp_only_denote_other c q n : tcp_only c -> q <> TCP -> cs_denote c q n = false.
@@ -56,7 +56,7 @@ Proof.
   { unfold m. rewrite cs_get_map, Hsc, Hso. reflexivity. }
   assert (Hnot : cs_is_all_without_allowall m = false).
   { destruct (cs_is_all_without_allowall m) eqn:E; [|reflexivity].
-    apply cs_iawa_spec in E. destruct E as [_ E]. specialize (E UDP). rewrite Hmu in E. discriminate E. }
+    apply cs_iawa_gen in E. destruct E as [_ E]. destruct (E UDP) as (ps0 & E0 & _). rewrite Hmu in E0. discriminate E0. }
   unfold cs_check_all. rewrite Hnot. split; [|split; assumption].
   apply cs_pre_iff. split.
   - unfold m. rewrite cs_all_map. exact Hac.
